@@ -136,6 +136,26 @@ func (m *monitor) checkUnmodified(b *base, modelPT []byte, modelOK bool) *base {
 	m.r.Guard(e.key("panic"), func() { o = m.decrypt(e, b.pt) })
 	readerOK := o != nil && o.clean() && o.mismatch < 0 && o.released == len(b.pt)
 	b.modelAgrees = modelOK && bytes.Equal(modelPT, b.pt)
+	// Recorded, not judged: the untampered file from a source whose end report
+	// (after the complete file) is not the bare io.EOF. The end-of-file probe
+	// wants exactly io.EOF, so /repo reports most of these as errors; whether a
+	// complete file followed by a source error is "accepted" is not C02's matter.
+	if readerOK && len(b.pt) <= 1<<20 {
+		for _, via := range e.endProduct(nil) {
+			ev := e.with(via)
+			var o2 *outcome
+			m.r.Guard(ev.key("panic"), func() { o2 = m.decrypt(ev, b.pt) })
+			if o2 != nil {
+				kind, _ := ev.delivery()
+				base, end := splitKind(kind)
+				res := "error"
+				if o2.clean() {
+					res = "clean end"
+				}
+				m.r.Tab("untampered_file_then_nonbare_end_report(recorded,not judged)", end+"/"+endTiming(base)+": "+res)
+			}
+		}
+	}
 	if !readerOK {
 		if o != nil && o.clean() {
 			m.r.Inconclusive("%s: the unmodified file decrypts cleanly to something else than what was encrypted (not a C02 matter)", b.name)
@@ -200,6 +220,7 @@ func main() {
 	lap("run")
 
 	m.checkUniqueness()
+	m.checkEndCoverage()
 	m.report()
 
 	r.Set("max_true_prefix_released_before_an_error", m.maxPrefix.Load())
